@@ -35,6 +35,7 @@ class Lower:
         self.deleters = {}
         self.tags = {}              # cname -> int
         self.static_asserts = []
+        self.lambda_caps = {}       # closure record id -> {captured decl id: (field name, by_reference)}
         self.used_cnames = {}
         self.stats = {'node_kinds': {}, 'functions': [], 'std_models': set(), 'externals': set()}
 
@@ -229,9 +230,9 @@ class Lower:
         if self.idx.is_polymorphic(rec): self.tag_of(cname)
         if self.idx.is_polymorphic(rec) and not has_poly_base:
             lines.append('  int vp_tag;')
-        for f in self.idx.fields(rec):
+        for fk, f in enumerate(self.idx.fields(rec)):
             t = self.tinfo(f['type'])
-            nm = f.get('name') or ('_anon' + f['id'][-4:])
+            nm = f.get('name') or ('_c%d' % fk)      # unnamed fields: lambda captures, by position
             if t[0] == 'array':
                 lines.append('  %s %s[%d];' % (self.ctype(t[1]), nm, t[2]))
             else:
